@@ -117,6 +117,7 @@ def evidence(prop, tier, seed, audit, cov_extra, wall, violations, rule, samples
         "trusted_base": P.TRUSTED + ["rustc 1.95 as the oracle for compile-time verdicts (accept / error code) of the generated probe programs",
                                      "the source scanner / probe generators in py/static.py"],
         "theorems": audit["theorems"], "axioms_found": audit["axioms"], "audit_problems": audit["problems"],
+        "trait_impl_blocks_compared_with_the_pinned_inventory": audit.get("trait_impl_blocks_checked", 0),
         "evaluations": evaluations, "distinct_nontrivial": distinct, "rule": rule, "samples": samples,
         "explanation": "finite decision tables kernel-checked in Lean (regenerated from /repo/src on this run) + the real compiler's verdict on every generated probe",
     }
